@@ -76,6 +76,7 @@ func c04(c *core.Ctx) {
 				}
 			}
 			c.Check(ackReach, "C04.R1", "publishHandler|duplicate|ack-reachable", ipos(c, set.Instr), "PUBREC still sent for a duplicate", "no acknowledgement is written for a duplicate QoS 2 PUBLISH")
+			ackOnEveryPath(c, "C04.R1")
 		}
 		// Set precedes the effects whenever QoS == 2
 		pins := map[ssa.Value]ssax.AV{}
